@@ -51,7 +51,7 @@ pub mod shadow_std {
     }
 
     pub mod io {
-        pub use super::super::simio::{stderr, stdout, Stderr, StderrLock, Stdout, StdoutLock};
+        pub use super::super::simio::{stderr, stdin, stdout, Stderr, StderrLock, Stdin, StdinLock, Stdout, StdoutLock};
         pub use ::std::io::*;
     }
 
@@ -2616,6 +2616,51 @@ pub mod simio {
             return Ok(n);
         }
         Ok(len)
+    }
+
+    /// (round 17) The simulated process's standard input: nothing is connected to it (`< /dev/null`,
+    /// the way a build script or CI starts a tool): every read is end-of-file at once. The real
+    /// handle would have been the simulator's own - a read from a terminal or an open pipe there
+    /// blocks the one OS thread all simulated threads share.
+    pub struct Stdin;
+    pub struct StdinLock<'a>(std::marker::PhantomData<&'a ()>);
+    pub fn stdin() -> Stdin {
+        Stdin
+    }
+    impl Stdin {
+        pub fn lock(&self) -> StdinLock<'static> {
+            StdinLock(std::marker::PhantomData)
+        }
+        pub fn read_line(&self, _buf: &mut String) -> io::Result<usize> {
+            Ok(0)
+        }
+        pub fn lines(self) -> io::Lines<StdinLock<'static>> {
+            io::BufRead::lines(self.lock())
+        }
+        pub fn is_terminal(&self) -> bool {
+            false
+        }
+    }
+    impl io::Read for Stdin {
+        fn read(&mut self, _buf: &mut [u8]) -> io::Result<usize> {
+            Ok(0)
+        }
+    }
+    impl io::Read for StdinLock<'_> {
+        fn read(&mut self, _buf: &mut [u8]) -> io::Result<usize> {
+            Ok(0)
+        }
+    }
+    impl io::BufRead for StdinLock<'_> {
+        fn fill_buf(&mut self) -> io::Result<&[u8]> {
+            Ok(&[])
+        }
+        fn consume(&mut self, _amt: usize) {}
+    }
+    impl StdinLock<'_> {
+        pub fn is_terminal(&self) -> bool {
+            false
+        }
     }
 
     pub struct Stdout;
